@@ -12,6 +12,7 @@ from engine.th import TH
 from spec.seq import N, lt, le, nmod
 
 PROPERTY = "C27"
+HISTORY_LEMMAS = ['batched_queue_history']  # lemmas/History.lean: one-cycle contracts => history-level statement (Lean 4)
 LEVEL = "proof"
 ASSUMPTIONS = [
     "count <= max_alloc / max_free (the argument layout is range(max+1); wider bit patterns are outside the type)",
